@@ -389,6 +389,11 @@ def zoo_task(idx):
             S.observe(a, c, name + " ~ from_dict")
             S.observe(c, a, name + " ~ from_dict")
             S.observe(b, c, name + " ~ from_dict")
+    if name == "ColumnInfo":
+        o = ColumnInfo.create("WGT", type="covariate", unit="kg", descriptor="body weight")
+        S.load(o, "other descriptor")
+        S.observe(a, o, name + " ~ other descriptor")
+        S.observe(o, a, name + " ~ other descriptor")
     if name.startswith("CompartmentalSystem") and "nodose" not in name:
         o = cs(True, order=1)
         S.load(o, "other insertion order")
